@@ -15,7 +15,8 @@ from ..core import rule, AnalysisError
 from ..engine import flow
 from ..engine import pattern as P
 from ..engine.facts import dotted, const, src, walk_func, str_value, enclosing_stmt, ancestors
-from .common import calls, raise_names, contains, pn, access_paths, assigned_from
+from .common import calls, raise_names, contains, pn, access_paths, assigned_from, branch_paths
+from .common import _fold_not as _fold
 from . import c12  # line-split-agreement is registered for C11 there
 from . import c01  # line-count (line and column bookkeeping of match_reg) is registered for C11 there
 from . import c05  # attribute-pieces is registered for C11 there
@@ -160,21 +161,27 @@ def offset_algebra(ctx):
             if isinstance(c_, (ast.List, ast.Tuple, ast.Set)) and all(isinstance(const(e_), str) for e_ in c_.elts):
                 return [const(e_) for e_ in c_.elts]
         return None
-    chain = [i for i in pf.body if isinstance(i, ast.If) and _kwtest(i.test)]
-    ctx.require(chain, "PythonFragment: keyword dispatch not found")
-    cur = chain[-1]
     sup = [c for c in walk_func(pf) if isinstance(c, ast.Call) and dotted(c.func) == "super().__init__"]
     offkw = [k.value for c in sup for k in c.keywords if k.arg == "lineno_offset"]
     offvar = offkw[0].id if offkw and isinstance(offkw[0], ast.Name) else None
     codevar = pn(pf, 1)
     n = 0
-    while True:
-        body = cur.body
-        prefix = ""
-        off = 0
-        for s in body:
+    # one path per keyword group, however the dispatch is spelled (if/elif chain, guard clauses, ...)
+    seen_groups = set()
+    for p in branch_paths(pf.body):
+        if isinstance(p.exit, ast.Raise):
+            continue
+        kws = None
+        for t_, v_ in p.conds:
+            tt_, vv_ = _fold(t_, v_)
+            if vv_ and _kwtest(tt_):
+                kws = _kwtest(tt_)
+        if not kws or tuple(kws) in seen_groups:
+            continue
+        seen_groups.add(tuple(kws))
+        prefix, off = "", 0
+        for s in p.stmts:
             if isinstance(s, ast.Assign) and src(s.targets[0]) == codevar and isinstance(s.value, ast.BinOp):
-                # leftmost constant operand of the concatenation
                 left = s.value
                 while isinstance(left, ast.BinOp) and isinstance(left.op, ast.Add):
                     left = left.left
@@ -182,14 +189,10 @@ def offset_algebra(ctx):
                     prefix = left.value
             if isinstance(s, ast.Assign) and offvar is not None and src(s.targets[0]) == offvar:
                 off = const(s.value)
-        if not any(isinstance(s, ast.Raise) for s in body):
-            n += 1
-            want = -prefix.count("\n")
-            ctx.check(off == want, "fragment[%s]" % ",".join(_kwtest(cur.test) or ["?"]), db.where(cur), "fragment is prefixed with %r (%d line(s)) but lineno_offset is %s: errors in such control lines are reported %+d line(s) off" % (prefix, prefix.count("\n"), off, (off or 0) - want), "prefix %r <-> offset %s" % (prefix, off))
-        if len(cur.orelse) == 1 and isinstance(cur.orelse[0], ast.If):
-            cur = cur.orelse[0]
-        else:
-            break
+        n += 1
+        want = -prefix.count("\n")
+        where_ = [t_ for t_, v_ in p.conds if _kwtest(_fold(t_, v_)[0]) == kws]
+        ctx.check(off == want, "fragment[%s]" % ",".join(kws), db.where(where_[0]) if where_ else db.where(pf), "fragment is prefixed with %r (%d line(s)) but lineno_offset is %s: errors in such control lines are reported %+d line(s) off" % (prefix, prefix.count("\n"), off, (off or 0) - want), "prefix %r <-> offset %s" % (prefix, off))
     ctx.require(n >= 5, "PythonFragment branches found: %d" % n)
     dflt = [s for s in pf.body if isinstance(s, ast.Assign) and offvar is not None and src(s.targets[0]) == offvar]
     ctx.check(bool(sup) and offvar is not None and bool(dflt) and const(dflt[0].value) == 0, "fragment.offset-passed", db.where(pf), "the offset is not handed to PythonCode", "lineno_offset forwarded")
